@@ -261,6 +261,25 @@ FOOTPRINT = [
 ]
 
 
+def abandoned_run_programs():
+    """Runs that END with an uncaught error raised inside a fiber, 1 to 3 fibers deep, while every fiber on the way (and the function that
+    started them) holds data objects in its locals, raised by throw / by a failing operation / in a method / after a yield-resume cycle.
+    Nothing of it is reachable from a global afterwards: once the next run has started and a collection has run, it is all gone."""
+    out = []
+    raises = [("throw", 'throw "boom";'), ("op", "var z = nil + 1;"), ("method", "[1].nosuch();"), ("index", "var q = [1][7];")]
+    for depth in (1, 2, 3):
+        for rn, stmt in raises:
+            for cycle in (False, True):
+                body = "var held%d = [[%d], (%d, %d), {%d: [%d]}]; %s" % (depth, depth, depth, depth, depth, depth, stmt)
+                for d in range(depth - 1, 0, -1):
+                    body = "var held%d = [[%d], (%d, %d)]; var f%d = Fiber.new(|| { %s }); f%d.call();" % (d, d, d, d, d + 1, body, d + 1)
+                if cycle:
+                    body = "var warm = Fiber.new(|| { var w = [[0]]; Fiber.yield(w); return w; }); warm.call(); warm.call(); " + body
+                src = "fn run() { var top = [[100], [200]]; var f1 = Fiber.new(|| { %s }); f1.call(); }\nrun();\n" % body
+                out.append(("abandoned:%d:%s:%s" % (depth, rn, "cycle" if cycle else "plain"), src, {}))
+    return out
+
+
 def footprint_failures(runner):
     import subprocess
     out = []
@@ -420,7 +439,7 @@ def correspondence(ctx, model_ok=True):
     if model_ok and specdiff.available():
         n_rc = 2400 if ctx.thorough else 400
         gen = progs_mod.generated(rng.fork("reach"), ["data", "closures", "classes", "fibers", "iteration", "exceptions", "alloc", "typed", "typed-try"], n_rc)
-        rc_progs = [("empty", "\n", {})] + [(n, s_, m) for n, s_, m, _ in gen] + [("twin:%s:%s" % (n, t), s_, {}) for n, a, b in TWINS for t, s_ in (("a", a), ("b", b)) if n not in SPEC_OVERAPPROXIMATES]
+        rc_progs = [("empty", "\n", {})] + abandoned_run_programs() + [(n, s_, m) for n, s_, m, _ in gen] + [("twin:%s:%s" % (n, t), s_, {}) for n, a, b in TWINS for t, s_ in (("a", a), ("b", b)) if n not in SPEC_OVERAPPROXIMATES]
         # (an EMPTY snippet is run between the program and the census: a run that ended with an uncaught error leaves its fibers - the one that
         # failed and, through the caller links, the ones that waited for it, with what their stacks hold - referenced by the interpreter until
         # the next run starts; that is what one abandoned run occupies, for as long as the interpreter is idle, not something later runs
